@@ -480,6 +480,66 @@ func TestVerif_C15(t *testing.T) {
 	if !checkAlive("huge-lengths", nil) {
 		return
 	}
+	// 5b. a record made of fragments that are each within the limit but together far beyond it
+	for _, shape := range [][2]int{{8, 1 << 20}, {40, 256 << 10}, {3, 700 << 10}} {
+		var stream []byte
+		chunk := make([]byte, shape[1])
+		for i := 0; i < shape[0]; i++ {
+			stream = append(stream, (&xdrw.W{}).U32(uint32(len(chunk))).B...)
+			stream = append(stream, chunk...)
+		}
+		stream = append(stream, 0x80, 0, 0, 0)
+		a0, _, ok0 := child.stats()
+		nStreams++
+		rec.Eval(1)
+		evid.Journal(map[string]any{"class": "oversize-multi-fragment-record", "fragments": shape[0], "fragment_bytes": shape[1]})
+		replies, _, closed, err := vfSendStream(child.port, stream, true, 60*time.Second)
+		a1, _, ok1 := child.stats()
+		if err == nil {
+			if len(replies) > 0 {
+				rec.Violate("C15/oversize-record-answered", fmt.Sprintf("a record of %d fragments x %d bytes (limit 1 MiB) was accepted and answered", shape[0], shape[1]), nil)
+			}
+			if !closed {
+				rec.Inconclusive(1)
+			}
+			if total := shape[0] * shape[1]; ok0 && ok1 && total > 4<<20 && a1-a0 > uint64(total) {
+				rec.Violate("C15/allocation-beyond-documented-bounds/oversize-multi-fragment-record", fmt.Sprintf("the server allocated %d bytes while reading a %d-byte multi-fragment record (limit 1 MiB)", a1-a0, total), nil)
+			}
+		}
+		rec.Distinct(fmt.Sprintf("oversize-multi-fragment|%dx%d|replies=%d", shape[0], shape[1], len(replies)))
+	}
+	if !checkAlive("oversize-multi-fragment", nil) {
+		return
+	}
+	// 5c. boundary values, one at a time, in every 4-byte word of the arguments of valid calls
+	hostileWords := []uint32{0xffffffff, 0x7fffffff}
+	if evid.Tier() == "thorough" {
+		hostileWords = []uint32{0xffffffff, 0x7fffffff, 0x80000000, 0, 1, 0x10000, 255, 256}
+	}
+	for vi, v := range valid {
+		proc, args := v[0].(uint32), v[1].([]byte)
+		if evid.Tier() == "quick" && vi%2 == 1 {
+			continue
+		}
+		for w := 0; w+4 <= len(args); w += 4 {
+			for _, hv := range hostileWords {
+				x, msg := mkCall(proc, args)
+				m := append([]byte(nil), msg...)
+				binary.BigEndian.PutUint32(m[len(m)-len(args)+w:], hv)
+				last = xdrw.Record(m)
+				if !run("boundary-word", last, []uint32{x}, proc, false) {
+					return
+				}
+			}
+		}
+		if !child.alive() {
+			died(last, "boundary-word")
+			return
+		}
+	}
+	if !checkAlive("boundary-word", last) {
+		return
+	}
 	// 6. many tiny fragments
 	for _, fsz := range []int{1, 2, 3} {
 		x, msg := mkCall(1, xdrw.ArgFH(root))
